@@ -1161,6 +1161,14 @@ def FIBER(
         else step_size(A)
     )
 
+    if beta_2 == 0 and beta_3 == 0:
+        # dispersionless fiber: self-phase modulation in closed form, with the effective length L_eff
+        L_eff = (1 - np.exp(-alpha * length)) / alpha if alpha != 0 else length
+        A = A * np.exp(-alpha * length / 2 + 1j * gamma * np.abs(A) ** 2 * L_eff)
+        output = optical_signal(A, input.noise)
+        output.execution_time = toc()
+        return output
+
     x_length = h
 
     if show_progress:
